@@ -514,7 +514,7 @@ Respond(p, r, kind, out) ==
                /\ UNCHANGED <<earned, oearned>>
           ELSE /\ bal' = Move(bal, REQ, TAX, tax)
                /\ earned' = AddTo(earned, p, net)
-               /\ oearned' = AddTo(oearned, powner[p], net)
+               /\ oearned' = AddTo(oearned, IF p \in DOMAIN powner THEN powner[p] ELSE "", net)
                /\ UNCHANGED <<bind, supply>>
        /\ resp' = rs
        /\ actId' = actId \ {r}
@@ -614,7 +614,7 @@ ExpireBatch(id) ==
            open == c.bstate # "completed"
            S    == IF open THEN ActOf(id, c.batch) ELSE {}
            \* timeouts of non-super requests are slashed and refunded
-           P    == IF c.super THEN {} ELSE S
+           P    == IF c.super THEN {} ELSE {r \in S : r \in DOMAIN req}
            keys == {BK(c.svc, req[r].prov) : r \in P}
            \* one request per binding and batch: each binding is slashed at most once here
            slashOK(k) == k \in DOMAIN bind /\ bal[DEP] >= SlashAmt(bind, k)
